@@ -16,6 +16,22 @@ BACKENDS = [
 ]
 
 
+def _child_setup() -> None:
+    """The solver dies with the checker (a killed check must not leave solvers behind) and cannot
+    take more than 6 GiB."""
+    import ctypes
+    import resource
+    import signal
+    try:
+        ctypes.CDLL("libc.so.6", use_errno=True).prctl(1, signal.SIGKILL)  # PR_SET_PDEATHSIG
+    except Exception:  # noqa: BLE001
+        pass
+    try:
+        resource.setrlimit(resource.RLIMIT_AS, (6 << 30, 6 << 30))
+    except Exception:  # noqa: BLE001
+        pass
+
+
 def portfolio(smt2: str, timeout_s: float) -> tuple[str, str]:
     """Returns (verdict, backend) with verdict in unsat | sat | unknown."""
     text = smt2 if "(check-sat)" in smt2 else smt2 + "\n(check-sat)\n"
@@ -26,7 +42,7 @@ def portfolio(smt2: str, timeout_s: float) -> tuple[str, str]:
         for name, cmd, trust_sat in BACKENDS:
             try:
                 p = subprocess.run(cmd + [path], capture_output=True, text=True,
-                                   timeout=timeout_s)
+                                   timeout=timeout_s, preexec_fn=_child_setup)
             except (subprocess.TimeoutExpired, OSError):
                 continue
             out = p.stdout.strip().splitlines()
